@@ -996,7 +996,11 @@ func (hs *history) sweep(ctx context.Context, st step, deletedNow []channel.Key)
 			switch {
 			case kindOf(o) == "free-index" && kindOf(ch) == "free-index" && hs.newKeys[o.Key()] && hs.newKeys[ch.Key()]:
 				sig = "c15:duplicate-name:calc-auto-index-created-twice"
-			case kindOf(ch) == "free-index" && hs.newKeys[ch.Key()] && !hs.newKeys[o.Key()] && strings.HasSuffix(ch.Name, "_time"):
+			case strings.HasSuffix(ch.Name, "_time") &&
+				((kindOf(ch) == "free-index" && hs.newKeys[ch.Key()] && (!hs.newKeys[o.Key()] || kindOf(o) != "free-index")) ||
+					(kindOf(o) == "free-index" && hs.newKeys[o.Key()] && kindOf(ch) != "free-index")):
+				// a calculated channel's auto-created index took a name that another channel
+				// (existing, or requested in the same batch) has
 				sig = "c15:duplicate-name:calc-auto-index-vs-existing"
 			}
 			hs.flag(st, ch.Key(), "dup-name", sig,
